@@ -41,8 +41,8 @@ CHECKS['C20'] = dict(
         'distinct among the last 16 goes to exactly that asker, a lookup only ever returns a remembered asker or the never-written zero '
         'slot, the forwarded datagram parses to the same id/name/type and replies are relayed byte-identical. Ring size re-read from the '
         'source; tied to fw_query.c and forward_query/tunnel_bind (iodined.c TU) by exhaustive bounded-depth and random long sequences.',
-   note='Trusts: sendto() with address length 0 reaches nobody (OS behaviour); IPv4 askers (an IPv6 asker is mis-addressed by forward_query: '
-        'recorded observation, outside the check); Coq kernel; translator; extraction; gcc.',
+   note='Trusts: sendto() with address length 0 reaches nobody (OS behaviour); generated histories use IPv4 askers, an IPv6 asker (repaired defect D12) is '
+        'judged by a fixed probe case on the implementation only; Coq kernel; translator; extraction; gcc.',
    technique='Coq proof (ring invariant by induction, refinement to last-16-puts spec), differential correspondence',
    design='4/C20')
 CHECKS['C18'] = dict(
